@@ -95,8 +95,13 @@ class EnumMember:
 
     # be read-only (except during initialization)
     def __setattr__(self, key, value):
-        if key in self.__slots__ and not getattr(self, 'name', None):
-            return object.__setattr__(self, key, value)
+        if key in self.__slots__:
+            try:
+                # not getattr(): while the slot is empty it would fall through to
+                # __getattr__, i.e. to a sibling member which happens to be called 'name'
+                object.__getattribute__(self, 'name')
+            except AttributeError:
+                return object.__setattr__(self, key, value)
         raise TypeError('Modifying EnumMember\'s is not allowed!')
 
     # allow access to other EnumMembers (via the Enum)
